@@ -425,6 +425,8 @@ func pfactsKey(m map[int]gfact) string {
 
 type gram struct {
 	w          *World
+	siteStack  []*ssa.Call       // call sites on the way to the function being interpreted
+	dynKeys    map[string]dynKey // member names written from data (not constants), by innermost loop site
 	finfo      map[*ssa.Function]*gfinfo
 	memo       map[string][]gout
 	busy       map[string]bool
@@ -441,8 +443,13 @@ type gram struct {
 	visited                            map[*ssa.Function]bool
 }
 
+type dynKey struct {
+	stack []*ssa.Call
+	root  string
+}
+
 func newGram(w *World) *gram {
-	return &gram{w: w, finfo: map[*ssa.Function]*gfinfo{}, memo: map[string][]gout{}, busy: map[string]bool{}, errSeen: map[string]bool{}, maxStep: 4000000, visited: map[*ssa.Function]bool{}}
+	return &gram{dynKeys: map[string]dynKey{}, w: w, finfo: map[*ssa.Function]*gfinfo{}, memo: map[string][]gout{}, busy: map[string]bool{}, errSeen: map[string]bool{}, maxStep: 4000000, visited: map[*ssa.Function]bool{}}
 }
 
 func (g *gram) fail(pos, fn, msg string, c *gconf) {
@@ -744,10 +751,32 @@ func (g *gram) feed(c *gconf, st gstack, data gval) []feedOut {
 		n, e := st.feedValue(false)
 		return []feedOut{{st: n, err: e, what: "a number"}}
 	}
+	if st.top() == 'k' && data.Empty != triYes {
+		g.noteDynKey()
+	}
 	return maybe(func() feedOut {
 		n, e := st.feedText()
 		return feedOut{st: n, err: e, what: "text"}
 	})
+}
+
+// noteDynKey records that bytes taken from data are being written inside a member name.
+func (g *gram) noteDynKey() {
+	if len(g.siteStack) == 0 {
+		return
+	}
+	k := ""
+	for _, s := range g.siteStack {
+		k += fmt.Sprintf("%p/", s)
+	}
+	if _, ok := g.dynKeys[k]; ok {
+		return
+	}
+	root := ""
+	if len(g.chain) > 0 {
+		root = g.chain[0]
+	}
+	g.dynKeys[k] = dynKey{stack: append([]*ssa.Call{}, g.siteStack...), root: root}
 }
 
 func applyRefs(c *gconf, refs []grefine) {
